@@ -179,6 +179,14 @@ func call(car string, v reflect.Value, rules string) func() error {
 			_ = valid.StructForFn(reflect.Zero(reflect.PtrTo(st)).Interface(), valid.RM{"F": "required|leak3,in=(zz)|leak4"})
 			return valid.Struct(p.Interface())
 		}
+	case "struct-tag-after-other-tag", "struct-tag-after-call-local-functions":
+		return func() error {
+			s, isNil := carrier.Validate(carrier.Kind(car), v, rules)
+			if isNil {
+				return nil
+			}
+			return fmt.Errorf("%s", s)
+		}
 	case "struct-rm-set-per-rule":
 		// the same rules accumulated with one RM.Set call per rule
 		st := carrier.TagType(v.Type(), "")
@@ -295,7 +303,7 @@ func run(c *runner.Ctx) {
 				cars = append(cars, "map", "map-iface")
 			}
 			if carrier.TagOK(rf.rules) {
-				cars = append(cars, "struct-tag", "struct-tag-after-override", "struct-tag-after-rejected-call")
+				cars = append(cars, "struct-tag", "struct-tag-after-override", "struct-tag-after-rejected-call", "struct-tag-after-other-tag", "struct-tag-after-call-local-functions")
 			}
 			if tv.varOK {
 				cars = append(cars, "var")
